@@ -1,8 +1,16 @@
 #!/bin/sh
 # Applies every stored seeded change (and every reverted fix) in turn and reports
-# whether the quick check of its property catches it.
+# whether the quick check of its property catches it.  SEEDCHECK=wt uses the scratch
+# worktree variant (tools_seedcheck_wt.sh), which leaves /repo untouched.
+tool=/verif/tools_seedcheck.sh
+[ "$SEEDCHECK" = wt ] && tool=/verif/tools_seedcheck_wt.sh
 for d in /verif/seeded/C*/; do
   n=$(basename $d); prop=$(echo $n | cut -c1-3)
-  r=$(/verif/tools_seedcheck.sh $prop $d/patch.diff quick 2>&1 | grep -E "^VIOLATION|exit=" | tr '\n' ' ' | cut -c1-160)
+  r=$($tool $prop $d/patch.diff quick 2>&1 | grep -E "^VIOLATION|exit=" | tr '\n' ' ' | cut -c1-160)
   echo "$n $r"
+done
+for f in /verif/seeded/reverted-fixes/*.diff; do
+  prop=$(basename $f | cut -d- -f1)
+  r=$($tool $prop $f quick 2>&1 | grep -E "^VIOLATION|exit=" | tr '\n' ' ' | cut -c1-160)
+  echo "revert-$(basename $f .diff) $r"
 done
